@@ -5,7 +5,7 @@ tier = 'quick'
 for a in sys.argv[1:]:
     if a.startswith('--tier='):
         tier = a.split('=')[1]
-seed, pids = args[0], args[1:]
+seed, pids = os.path.abspath(args[0]), args[1:]
 patch = os.path.join(seed, 'patch.diff')
 r = subprocess.run(['git', '-C', '/repo', 'status', '--porcelain', '--untracked-files=no'], capture_output=True, text=True)
 assert r.stdout.strip() == '', '/repo not clean: ' + r.stdout
